@@ -125,7 +125,8 @@ class LibsModel:
         # ---- networkx
         if qual.startswith('networkx.'):
             if last in ('Graph', 'DiGraph'):
-                return AV(ty='Graph', directed=(last == 'DiGraph') or None, deps=d, fresh=True, gid=id(node))
+                return AV(ty='Graph', directed=(last == 'DiGraph') or None, deps=d, fresh=True, gid=id(node),
+                          kw={k: v for k, v in kwargs.items() if k != '**'} or None)  # graph attributes are held by the graph
             if last == 'shortest_path':
                 interp.emit('nx_shortest_path', node, args=args, kwargs=kwargs)
                 return AV(ty='list', elem=AV(ty='tuple', voxel=True), deps=d, path=True, fresh=True)
